@@ -530,6 +530,11 @@ impl<'c> Model<'c> {
     }
 
     fn dequeue(&mut self, q: Q) {
+        // keyberon holds at most 64 states and drops further ones silently (known finding F31):
+        // beyond that the model, which is unbounded, is outside its domain
+        if self.states.len() > 56 && self.out_of_domain.is_none() {
+            self.out_of_domain = Some("state-vector-capacity");
+        }
         self.stat_max_held_layers = self.stat_max_held_layers.max(self.held_layers().len());
         if !self.held_layers().is_empty() || self.base != 0 {
             self.stat_layer_active_on_event = true;
